@@ -7,6 +7,12 @@ pipeline, configurations nn/pn/nf/pf = without/with plan x without/with frame ar
               dynamic route x every operator / condition / loop condition / index /
               index assignment / method name of every built-in family (right and wrong
               argument types and counts) / global built-in
+  extremes    numeric extremes (0, -0, +-0.5, len-1/len/len+1, 2^31, 2^32, 2^53, 2^63-1024, 2^63, 2^64,
+              +-1e19, +-1e300, +-inf, NaN) at every position where a run-time number becomes an
+              index or a size: `slice` bounds (ALL PAIRS, on empty / ASCII / multi-byte strings),
+              array index read / assignment (flat, nested, empty), number methods and printing;
+              find / replace / split / join / pop / len with empty and very long arguments;
+              each through a literal and a dynamically typed route
   shapes      the structural shapes (`x.foo` without call, `f()()`, `f()[0] get 1`, method on a
               literal, wrong arities, early call of a hoisted function, loop control in a
               nested function, ...)
@@ -188,6 +194,112 @@ def product_cases():
                     continue
                 cases.append((("P/%s/%s/%s" % (vname, rtag, utag)).replace(" ", "_"), src))
     assert len(set(c for c, _ in cases)) == len(cases), "product ids must be unique"
+    return cases
+
+
+# --------------------------------------------------------------------------------------------
+# numeric extremes: every position where a run-time number is converted to an index / size
+
+BIG308 = "1" + "0" * 308
+EXT_PRELUDE = ["make zbig get %s" % BIG308, "make zinf get zbig times 10", "make zninf get 0 minus zinf",
+               "make znan get zinf minus zinf", "do zid(p) start", "  return p", "end"]
+EXT_VALUES = [("0", "0"), ("-0", "(minus 0)"), ("0.5", "0.5"), ("-0.5", "(minus 0.5)"), ("1", "1"), ("-1", "(minus 1)"),
+              ("2", "2"), ("-2", "(minus 2)"), ("3.9", "3.9"), ("-3.1", "(minus 3.1)"),
+              ("2^31", "2147483648"), ("2^32", "4294967296"), ("2^53", "9007199254740992"),
+              ("2^63-1024", "9223372036854774784"), ("2^63", "9223372036854775808"), ("-2^63", "(minus 9223372036854775808)"),
+              ("-2^63-2048", "(minus 9223372036854777856)"), ("2^64", "18446744073709551616"),
+              ("1e19", "10000000000000000000"), ("-1e19", "(minus 10000000000000000000)"),
+              ("1e300", "1" + "0" * 300), ("-1e300", "(minus 1" + "0" * 300 + ")"),
+              ("inf", "zinf"), ("-inf", "zninf"), ("nan", "znan")]
+EXT_STRINGS = [("empty", '""', 0, 0), ("ascii", '"wahala dey"', 10, 10), ("multi", '"héllo 世界"', 8, 13)]
+EXT_ARRAYS = [("empty", "[]", 0), ("flat", "[1, 2, 3]", 3), ("nested", "[[1, 2], [3]]", 2)]
+LONG = '"' + "ab" * 48 + '"'
+LONG_NEEDLE = '"' + "abababababababababab" + '"'          # 20 bytes: the two-way (long needle) search
+
+
+def len_values(*lens):
+    out = []
+    for n in sorted(set(lens)):
+        for d in (-1, 0, 1):
+            k = n + d
+            out.append(("len%+d=%d" % (d, k), str(k) if k >= 0 else "(minus %d)" % -k))
+            out.append(("-(len%+d)=%d" % (d, -k), "(minus %d)" % k if k > 0 else str(-k)))
+    seen, res = set(), []
+    for t, e in out:
+        if e not in seen:
+            seen.add(e)
+            res.append((t, e))
+    return res
+
+
+def extremes_cases(all_pairs_separately=False):
+    """all_pairs_separately: one program per (start, end) pair of slice bounds (thorough);
+    otherwise one program per start value printing the slice for EVERY end value (quick) —
+    the same pairs are evaluated either way."""
+    cases = []
+
+    def add(cid, lines):
+        body = "\n".join(lines)
+        pre = []
+        if re.search(r"\bz(inf|ninf|nan)\b", body):
+            pre += EXT_PRELUDE[:4]
+        if "zid(" in body:
+            pre += EXT_PRELUDE[4:]
+        cases.append((("X/" + cid).replace(" ", "_"), "\n".join(pre + lines) + "\n"))
+
+    routes = [("lit", lambda e: e), ("dyn", lambda e: "zid(%s)" % e)]
+    # slice: all PAIRS of bounds, on empty / ASCII / multi-byte strings, literal and dynamic route
+    for sname, slit, clen, blen in EXT_STRINGS:
+        vals = EXT_VALUES + [v for v in len_values(clen, blen) if v[1] not in [e for _, e in EXT_VALUES]]
+        for rname, r in routes:
+            recv = slit if rname == "lit" else "zid(%s)" % slit
+            for ta, a in vals:
+                if all_pairs_separately:
+                    for tb, b in vals:
+                        add("slice/%s/%s/%s,%s" % (sname, rname, ta, tb), ['shout("[" add %s.slice(%s, %s) add "]")' % (recv, r(a), r(b))])
+                else:
+                    # rows in both orders, so that each bound value leads a program once as start and once as end
+                    add("slice-row/%s/%s/start=%s" % (sname, rname, ta),
+                        ['shout("[" add %s.slice(%s, %s) add "]")' % (recv, r(a), r(b)) for _, b in vals])
+                    add("slice-col/%s/%s/end=%s" % (sname, rname, ta),
+                        ['shout("[" add %s.slice(%s, %s) add "]")' % (recv, r(b), r(a)) for _, b in reversed(vals)])
+    # indexes: read, assignment, nested (either level)
+    for aname, alit, alen in EXT_ARRAYS:
+        vals = EXT_VALUES + [v for v in len_values(alen) if v[1] not in [e for _, e in EXT_VALUES]]
+        for rname, r in routes:
+            for tv, v in vals:
+                add("idx-read/%s/%s/%s" % (aname, rname, tv), ["make a get %s" % alit, "shout(a[%s])" % r(v)])
+                add("idx-assign/%s/%s/%s" % (aname, rname, tv), ["make a get %s" % alit, "a[%s] get 9" % r(v), "shout(a)"])
+                if aname == "nested":
+                    add("idx-read-inner/%s/%s" % (rname, tv), ["make a get %s" % alit, "shout(a[0][%s])" % r(v)])
+                    add("idx-read-outer/%s/%s" % (rname, tv), ["make a get %s" % alit, "shout(a[%s][0])" % r(v)])
+                    add("idx-assign-inner/%s/%s" % (rname, tv), ["make a get %s" % alit, "a[0][%s] get 9" % r(v), "shout(a)"])
+                    add("idx-assign-outer/%s/%s" % (rname, tv), ["make a get %s" % alit, "a[%s][0] get 9" % r(v), "shout(a)"])
+                    add("idx-push-inner/%s/%s" % (rname, tv), ["make a get %s" % alit, "a[%s].push(9)" % r(v), "shout(a)"])
+    # numbers as receivers / printed / converted
+    for rname, r in routes:
+        for tv, v in EXT_VALUES:
+            add("num/%s/%s" % (rname, tv), ["make n get %s" % r(v)] +
+                ["shout(n.%s())" % m for m in ("abs", "sqrt", "floor", "ceil", "round")] +
+                ["shout(to_string(n))", 'shout("v=" add n)', 'shout("v={n}")', "shout(n na n)", "shout(n mod 7)", "shout(typeof(n))"])
+    # empty / very long arguments of the string and array built-ins
+    strs = [("empty", '""'), ("a", '"a"'), ("multi", '"héé世"'), ("long", LONG), ("needle20", LONG_NEEDLE)]
+    for rname, r in routes:
+        for th, h in strs:
+            for tn, n in strs:
+                add("find/%s/%s/%s" % (rname, th, tn), ["shout(%s.find(%s))" % (r(h), r(n))])
+                add("split/%s/%s/%s" % (rname, th, tn), ["shout(%s.split(%s))" % (r(h), r(n)), "shout(%s.split(%s).len())" % (r(h), r(n))])
+                for tt, t in (("empty", '""'), ("x", '"x"'), ("long", LONG)):
+                    add("replace/%s/%s/%s/%s" % (rname, th, tn, tt), ["shout(%s.replace(%s, %s).len())" % (r(h), r(n), r(t)),
+                                                                      "shout(%s.replace(%s, %s))" % (r(h), r(n), r(t))])
+            add("strmisc/%s/%s" % (rname, th), ["make s get %s" % r(h), "shout(s.len())", 'shout("[" add s.trim() add "]")',
+                                                "shout(s.to_uppercase().len())", "shout(s.to_lowercase().len())"])
+        for ta, a in (("empty", "[]"), ("nested-empty", "[[]]"), ("one", "[1]"), ("strs", '["a", ""]')):
+            for tsep, sep in strs:
+                add("join/%s/%s/%s" % (rname, ta, tsep), ["make a get %s" % r(a), 'shout("[" add a.join(%s) add "]")' % r(sep)])
+            add("arrmisc/%s/%s" % (rname, ta), ["make a get %s" % a, "shout(a.len())", "shout(a.pop())", "shout(a.pop())", "shout(a.pop())",
+                                                "shout(a.len())", "a.reverse()", "shout(a)", "a.push(1)", "shout(a.pop())", "shout(a)"])
+    assert len(set(c for c, _ in cases)) == len(cases), "extremes ids must be unique"
     return cases
 
 
@@ -565,7 +677,8 @@ def correspond(env, searching=False, model=True):
     if searching:
         ngen *= 2
     gen, gstats = generated_cases(env, ngen)
-    streams = [("shapes", shapes), ("product", prod), ("generated", gen)]
+    ext = extremes_cases(all_pairs_separately=not quick)
+    streams = [("shapes", shapes), ("product", prod), ("extremes", ext), ("generated", gen)]
     per_stream = {}
     cache = {}
     for name, cases in streams:
@@ -599,6 +712,9 @@ def correspond(env, searching=False, model=True):
         "disagreements": out["disagreements"],
         "extra": {"exhaustive": True,
                   "exhaustive_what": "type-routing product: %d values x routes x %d uses = %d programs, all run" % (len(VALUES), len(uses()), len(prod)),
+                  "extremes_what": "numeric extremes: %d programs; slice with ALL PAIRS of %d bound values on empty/ASCII/multi-byte strings, "
+                                   "array index read/assign (flat, nested either level, empty), number methods/printing, find/replace/split/join/pop/len "
+                                   "with empty and very long arguments; literal and dynamically typed route each" % (len(ext), len(EXT_VALUES)),
                   "streams": per_stream, "accepted": out["accepted"], "rejected_by_checker": out["rejected"],
                   "ending_histogram_accepted": out["endings"], "model_compare": out["compare"],
                   "crash_keys": out["crash_keys"], "wf_scoped_histogram": out["scoped"],
